@@ -38,22 +38,23 @@ type viewJ struct {
 }
 
 type reqJ struct {
-	Op         string `json:"op"`
-	Path       string `json:"path,omitempty"`
-	PathHex    string `json:"pathHex,omitempty"`
-	Limit      uint64 `json:"limit,omitempty"`
-	Off        uint64 `json:"off,omitempty"`
-	Start      uint64 `json:"start,omitempty"`
-	Count      uint64 `json:"count,omitempty"`
-	Plen       int    `json:"plen,omitempty"`
-	Chunk      string `json:"chunk,omitempty"`
-	PayloadHex string `json:"payloadHex,omitempty"`
-	Stream     string `json:"stream,omitempty"`     // hex: raw bytes, framed by the protocol tables
-	AbortAfter int64  `json:"abortAfter,omitempty"` // the client resets the connection after receiving this many bytes of the reply (read-type requests only)
-	Announce   uint64 `json:"announce,omitempty"`   // payload ops: the length field says this (> bytes sent): the frame is truncated by construction
-	Cut        int    `json:"cut,omitempty"`        // send only the first Cut bytes of the frame (>0)
-	Stall      bool   `json:"stall,omitempty"`      // with Cut: stay silent afterwards instead of hanging up (the read timeout must end the connection)
-	DelayMs    int    `json:"delayMs,omitempty"`    // wait before sending this request
+	Op              string `json:"op"`
+	Path            string `json:"path,omitempty"`
+	PathHex         string `json:"pathHex,omitempty"`
+	Limit           uint64 `json:"limit,omitempty"`
+	Off             uint64 `json:"off,omitempty"`
+	Start           uint64 `json:"start,omitempty"`
+	Count           uint64 `json:"count,omitempty"`
+	Plen            int    `json:"plen,omitempty"`
+	Chunk           string `json:"chunk,omitempty"`
+	PayloadHex      string `json:"payloadHex,omitempty"`
+	Stream          string `json:"stream,omitempty"`          // hex: raw bytes, framed by the protocol tables
+	StallWriteAfter int64  `json:"stallWriteAfter,omitempty"` // the client stops reading after this many bytes of the reply and stays silent (read-type requests)
+	AbortAfter      int64  `json:"abortAfter,omitempty"`      // the client resets the connection after receiving this many bytes of the reply (read-type requests only)
+	Announce        uint64 `json:"announce,omitempty"`        // payload ops: the length field says this (> bytes sent): the frame is truncated by construction
+	Cut             int    `json:"cut,omitempty"`             // send only the first Cut bytes of the frame (>0)
+	Stall           bool   `json:"stall,omitempty"`           // with Cut: stay silent afterwards instead of hanging up (the read timeout must end the connection)
+	DelayMs         int    `json:"delayMs,omitempty"`         // wait before sending this request
 }
 
 type connJ struct {
@@ -128,6 +129,7 @@ type sessionEnv struct {
 
 	// concurrent mode: this env belongs to one connection
 	hung        bool            // a request of this world got no answer within the waiting time
+	wstall      bool            // the request in flight has a peer that stops reading the reply
 	priv        []string        // its private subtree
 	ownChunks   map[string]bool // names of the payloads this connection uploaded
 	shared      []nodeJ         // the static rest of the tree
@@ -768,6 +770,14 @@ func (env *sessionEnv) doReq(c *memConn, cj *connJ, r *reqJ) bool {
 	}
 	env.stall = r.Stall
 	defer func() { env.stall = false }()
+	if r.StallWriteAfter > 0 {
+		// the peer neither reads the reply nor hangs up: the server must not wait for ever
+		c.SetWindow(r.StallWriteAfter)
+		env.wstall = true
+		defer func() { env.wstall = false }()
+		return env.exchange(c, cj, "ABORTED", map[string]interface{}{"op": "ABORTED", "path": []string{}, "limit": pos(0), "off": pos(0),
+			"start": 0, "count": 0, "plen": 0, "chunk": "", "hugeArgs": false, "of": r.Op, "cut": 0, "bad": []string{}}, frameBytes, nil)
+	}
 	if r.AbortAfter > 0 {
 		// the peer walks away in the middle of the reply: what it got is not judged, the connection is over
 		c.ArmReset(r.AbortAfter)
@@ -855,6 +865,9 @@ func (env *sessionEnv) exchange(c *memConn, cj *connJ, op string, req map[string
 	faultsBefore := env.ledger.FaultsApplied()
 	opsBefore := env.ledger.OpCount()
 	c.Send(frameBytes)
+	if env.wstall {
+		c.WaitClosed(time.Duration(env.wj.ReadTimeoutMs)*time.Millisecond + 5*time.Second)
+	}
 	quiet := c.WaitQuiescent(30 * time.Second)
 	if !quiet {
 		env.hung = true // one unanswered request is enough for the verdict: the rest of this world is skipped
@@ -913,6 +926,10 @@ func (env *sessionEnv) exchange(c *memConn, cj *connJ, op string, req map[string
 		"arms": c.TakeArms(), "stalled": stalled, "cutAfterMs": -1, "deadlineHit": false}
 	if stalled {
 		ev["cutAfterMs"], ev["deadlineHit"] = c.CutAfterMs()
+	}
+	ev["wstalled"] = env.wstall
+	if env.wstall {
+		ev["cutAfterMs"], ev["deadlineHit"] = c.WriteCutAfterMs()
 	}
 	var nodes []nodeJ
 	var fp string
